@@ -37,9 +37,9 @@ PDATA = {"r": _rot(0), "a": _rot(2), "b": _rot(5),
 
 
 def valuations(dom, quick):
-    '''Explicit list of passive valuations in the order of dom.  Thorough:
-    every (n, m) with both coefficient rows; quick: m in 1..2 and the rows
-    alternate over the (n, m) grid (both rows when there is no integer).'''
+    '''Explicit list of passive valuations in the order of dom: every (n, m)
+    (quick: m in 1..2, thorough: m in 1..3); the two coefficient rows alternate
+    over the (n, m) grid (both rows when the kernel has no integer input).'''
     axes = []
     for nm in dom:
         if nm == "n":
@@ -52,7 +52,7 @@ def valuations(dom, quick):
         ints = dict(combo)
         if not real:
             rows = [REAL_ROWS[0]]
-        elif quick and axes:
+        elif axes:
             rows = [REAL_ROWS[k % 2]]
         else:
             rows = REAL_ROWS
@@ -270,7 +270,7 @@ def _cost(case):
     return len(case["vals"]) * (2 * n + 3)
 
 
-def run_adjoint(cases, workers=None, budget=60000, timeout=3000, cfg="SemAdjoint.cfg"):
+def run_adjoint(cases, workers=None, budget=400000, timeout=3000, cfg="SemAdjoint.cfg"):
     '''Run the cases through SemAdjoint.tla in batches of about `budget`
     program executions.'''
     res = AdjResult()
@@ -536,8 +536,20 @@ MATCHERS = {"increment-first-term-subtracted": m_increment_first_term_subtracted
 
 
 # ------------------------------------------------------------------------ run
+def _procs():
+    '''PV_C19_PROCS limits the processes / TLC workers (development aid).'''
+    try:
+        return int(os.environ.get("PV_C19_PROCS", "0")) or None
+    except ValueError:
+        return None
+
+
 def build(tier, procs=None):
     items = [(kid, body, tier) for kid, body in c19_gen.kernels(tier)]
+    flt = os.environ.get("PV_C19_FILTER")      # regex on the kernel id (binding demos)
+    if flt:
+        import re
+        items = [it for it in items if re.search(flt, it[0])]
     return [r for part in core.pool_map(_build, items, procs=procs) for r in part]
 
 
@@ -590,7 +602,7 @@ def judge(out, results, res):
 def run(tier):
     core.setup_psyclone_env()
     out = core.Outcome("C19", tier, "model_checking", matchers=MATCHERS)
-    results = build(tier)
+    results = build(tier, procs=_procs())
     stat = {}
     for r in results:
         stat[r["status"]] = stat.get(r["status"], 0) + 1
@@ -603,7 +615,7 @@ def run(tier):
             if r["status"] == "unsupported":
                 why[r["why"]] = why.get(r["why"], 0) + 1
         raise core.MachineryError(f"too many unsupported cases: {stat} {why}")
-    res = run_adjoint([r["case"] for r in accepted])
+    res = run_adjoint([r["case"] for r in accepted], workers=_procs())
     accepted, nontrivial, skipstat, failing = judge(out, results, res)
     crashes = [r for r in results if r["status"] == "crash"]
     unsup = [r for r in results if r["status"] == "unsupported"]
